@@ -23,7 +23,10 @@ RULE = ("Hypothesis draws files biased to boundary arithmetic (2-6 segments, 1-4
         ' Every in-range integer index is followed immediately by windows and slices around the element just read (an '
         'integer index leaves a cached chunk behind).'
         ' Shortened interleaved middle segments (content = complete rows) and a job on scaled channels (reference: '
-        'full read of a separate fresh file) are included.')
+        'full read of a separate fresh file) are included.'
+        ' A further job reads files of 2-12 GiB that exist only as a formula (vf.observe.VirtualStream): windows, '
+        "slices and indices around byte positions 2^31, 2^32 and 2^33 must return the formula's bytes and fetch no "
+        'more than the chunks they overlap.')
 ASSUMPTIONS = [
     "independent encoder vf/encode.py",
     "negative offset/length are outside the statement (domain offset >= 0)",
